@@ -1406,6 +1406,34 @@ def variants(tier: str) -> List[Dict[str, Any]]:
                           for verb in ("remove", "install", "execute", "execute")])
     add("data_manipulation(rich obs, web-browser removed, installed again and executed)", c, 1, 30, ex, p_extra=0.6,
         script=(0, None, 1, None, None, None, 2))
+    # degenerate dimensions: every configurable count at its lower end (0 slots), hosts switched off and on again so
+    # that the default observations of the empty shapes are produced as well
+    def zero(c, keys):
+        o = _nodes_opts(c)
+        for k in keys:
+            o[k] = 0
+        for h in o["hosts"]:
+            if "num_services" in keys:
+                h.pop("services", None)
+            if "num_applications" in keys:
+                h.pop("applications", None)
+            if "num_folders" in keys:
+                h.pop("folders", None)
+            if "num_files" in keys:
+                for fo in h.get("folders", []):
+                    fo.pop("files", None)
+
+    zsets = [("num_files",), ("num_folders",), ("num_services", "num_applications"), ("num_files", "num_folders", "num_services", "num_applications")]
+    for zi, keys in enumerate(zsets if not quick else zsets[:1] + zsets[3:]):
+        for flat in ((False,) if quick else (False, True)):
+            c = dm()
+            rich_observation(c, scan=(bool(zi % 2), True, False))
+            zero(c, keys)
+            ex = _add_actions(c, adversarial_actions())
+            _proxy(c)["agent_settings"]["flatten_obs"] = flat
+            pw = [i for i, (a, o) in enumerate(adversarial_actions()) if a in ("node-shutdown", "node-startup")]
+            add(f"data_manipulation(rich obs, {'/'.join(keys)} = 0, flatten={flat}, adversarial)", c, 1, 30 if quick else 80, ex,
+                p_extra=0.6, script=(None, pw[0], None, None, None, pw[1]) if len(pw) > 1 else ())
     add("uc7_config", scenarios.shipped("uc7_config.yaml"), 2, 30 if quick else 128)
     add("scenario_with_placeholders(episode schedule)", str(scenarios.PKG / "scenario_with_placeholders"), 5, 20 if quick else 60,
         constant=False, note="episode-scheduled directory: not a constant scenario; digests logged, constancy not demanded")
